@@ -2,6 +2,7 @@
    paths of the owning iterators are Layer B). *)
 Require Import LruV.A.LedgerA.
 Require Import LruV.A.MonitorsSound LruV.A.MonitorsA LruV.A.PanicProps.
+Require Import LruV.A.InvA LruV.B.StepB LruV.B.RefineB LruV.B.ReachB.
 
 (* one step, any operation, any state, any oracle: the multiset of tokens held before plus those the
    operation brings in equals the multiset held after plus dropped plus handed back (plus what a
@@ -53,7 +54,22 @@ Theorem C06_monitor_sound : forall E VS, 0 < E -> VS <= E -> forall s p o s' out
   stepA E VS fixed s p o = Some (s', out, evs) -> c06_mon s p out (e_dropped evs) s' = true.
 Proof. exact c06_mon_sound. Qed.
 
+(* at pointer level: for every step of the heap-of-nodes model from a reachable state, the objects owned by the linked nodes
+   before the step plus those the operation brings in are, as a multiset, the objects owned by the linked nodes afterwards
+   plus those dropped, returned and (by a forgotten drain) leaked: nothing is duplicated, nothing is lost *)
+Theorem C06_pointer_level : forall E VS, 0 < E -> VS <= E -> forall b p oB b' out evs,
+  ReachB E VS b -> wf_op E (absB b) p -> stepB E VS b p oB = Some (b', out, evs) ->
+  RIb b' /\
+  Permutation (all_toks (ents (absB b)) ++ op_toks p) (all_toks (ents (absB b')) ++ e_dropped evs ++ returned p out ++ leaked (absB b) p).
+Proof.
+  intros E VS HE HV b p oB b' out evs HR Hwf Hstep.
+  destruct (reachB_sound E VS HE HV b HR) as [_ HRa]. pose proof (reach_inv E VS HE HV _ HRa) as HI.
+  destruct (reachB_step E VS HE HV b _ oB b' out evs HR Hstep) as (HA & HRI & _).
+  split; [exact HRI|]. exact (C06_step E VS HE HV _ p _ _ out evs HI Hwf HA).
+Qed.
+
 Print Assumptions C06_step.
 Print Assumptions C06_exactly_once.
 Print Assumptions C06_no_leak_without_forget.
 Print Assumptions C06_monitor_sound.
+Print Assumptions C06_pointer_level.
